@@ -7,6 +7,7 @@ import (
 	"os"
 	"runtime/debug"
 	"strings"
+	"sync/atomic"
 	"testing"
 	"testing/synctest"
 	"time"
@@ -52,7 +53,7 @@ func Main(m *testing.M, gen func(hx.Args), run func(t *testing.T, toks []string)
 // RealDeadline is the real-time limit of one op (a bubble that never becomes quiescent, e.g. a goroutine spinning
 // while virtual time stands still, ends as HANG). DeadlineFor, when set, chooses it per op.
 var (
-	RealDeadline = 120 * time.Second
+	RealDeadline = 40 * time.Second
 	DeadlineFor  func(toks []string) time.Duration
 )
 
@@ -80,6 +81,10 @@ func RunTest(t *testing.T) {
 	hx.Flush()
 }
 
+// Partial, when set by a scenario, returns what has been logged so far; it is appended to a HANG outcome
+// so that a scenario that never finishes still shows where it was.
+var Partial atomic.Pointer[func() string]
+
 // Bubble runs f in a synctest bubble; a panic (including synctest's deadlock panic) or a real-time
 // deadline is an outcome, not a crash.
 func Bubble(t *testing.T, realDeadline time.Duration, f func(t *testing.T) string) string {
@@ -103,6 +108,16 @@ func Bubble(t *testing.T, realDeadline time.Duration, f func(t *testing.T) strin
 	case r := <-ch:
 		return r
 	case <-time.After(realDeadline):
+		if p := Partial.Load(); p != nil {
+			s := (*p)()
+			if f := os.Getenv("VERIF_HANGLOG"); f != "" {
+				os.WriteFile(f, []byte(s), 0o644)
+			}
+			if len(s) > 6000 {
+				s = s[len(s)-6000:]
+			}
+			return "HANG tail: " + s
+		}
 		return "HANG"
 	}
 }
